@@ -24,6 +24,7 @@ Section RI.
   Local Notation Good := (Good S OPS ATTRS OBJS).
   Local Notation Rng := (Rng eok).
   Local Notation DQ := (DQ S OPS ATTRS OBJS F eok).
+  Local Notation lib x := (x S OPS ATTRS OBJS _ F eok HR HS) (only parsing).
 
   Lemma dc_request_item f : DQ f -> forall st d tag (c : cur R) v c' st',
     find_tdef S (t_name d) = Some d -> t_custom_dec d = true ->
@@ -39,16 +40,16 @@ Section RI.
     pose proof (ty_eqb_eq _ _ Ht0) as Et0. pose proof (ty_eqb_eq _ _ Ht1) as Et1.
     assert (Et2 : exists nm, fty d 2 = TIface nm) by (destruct (fty d 2); try discriminate; eauto). destruct Et2 as [nm Et2].
     unfold dec_request_item in H.
-    destruct (wrap_struct_inv F eok HR _ _ _ _ _ _ _ H) as (sub & vals & c2 & Hb & -> & Hw). clear H.
+    destruct (lib wrap_struct_inv _ _ _ _ _ _ _ H) as (sub & vals & c2 & Hb & -> & Hw). clear H.
     rewrite Et0, Et1 in Hb.
     destruct (SchemaSem.dec_ty S OPS ATTRS OBJS F f st (TScalar (KEnum (ftag d 0))) (ftag d 0) sub) as [[[opv c_1] s_1]| | |] eqn:Eop; cbn [bind fst snd] in Hb; try discriminate.
-    destruct (dreq_enum_inv F eok HR _ _ _ _ _ _ _ _ Eop) as (-> & op & -> & Rop). cbn [int_of] in Hb.
+    destruct (lib dreq_enum_inv _ _ _ _ _ _ _ _ Eop) as (-> & op & -> & Rop). cbn [int_of] in Hb.
     destruct (SchemaSem.dec_opt S OPS ATTRS OBJS F f st (TScalar KBytes) (ftag d 1) c_1) as [[[idv c_2] s_2]| | |] eqn:Eid; cbn [bind fst snd] in Hb; try discriminate.
-    destruct (dopt_bytes_inv S OPS ATTRS OBJS F eok HR _ _ _ _ _ _ _ Eid) as (-> & id & Hid & Rid).
+    destruct (lib dopt_bytes_inv _ _ _ _ _ _ _ Eid) as (-> & id & Hid & Rid).
     destruct (dec_payload OPS F (SchemaSem.dec_ty S OPS ATTRS OBJS F f) (dec_fields F f) st false op (ftag d 2) c_2) as [[[pl c_3] s_3]| | |] eqn:Epl; cbn [bind fst snd] in Hb; try discriminate.
-    destruct (payload_good S OPS ATTRS OBJS F eok HR HS _ _ _ _ _ _ _ _ _ nm HQ Epl) as (ip & (pl' & fp & Hp) & Rpl).
+    destruct (lib payload_good _ _ _ _ _ _ _ _ _ nm HQ Epl) as (ip & (pl' & fp & Hp) & Rpl).
     destruct (SchemaSem.dec_opt S OPS ATTRS OBJS F f st (fty d 3) (ftag d 3) c_3) as [[[ext c_4] s_4]| | |] eqn:Eext; cbn [bind fst snd] in Hb; try discriminate.
-    destruct (dopt_ptr_good S OPS ATTRS OBJS F eok HR _ _ _ _ _ _ _ _ HQ Hext Eext) as (-> & t3 & Et3 & Hone3 & ie & (ext' & fe & He) & Rext).
+    destruct (lib dopt_ptr_good _ _ _ _ _ _ _ _ HQ Hext Eext) as (-> & t3 & Et3 & Hone3 & ie & (ext' & fe & He) & Rext).
     injection Hb as <- <- <-.
     exists [IStruct tag ([IEnum (ftag d 0) (ftag d 0) op] ++ (match id with [] => [] | _ => [IBytes (ftag d 1) id] end) ++ ip ++ ie)].
     split.
